@@ -92,7 +92,8 @@ func checkC16(c *Case, st *Stats) string {
 	}
 	obj3 := map[string]interface{}{key: float64(3000)}
 	want := obj[key]
-	nested := map[string]interface{}{"w": obj, "l": []interface{}{obj2, obj3}, "o": map[string]interface{}{"o": obj}}
+	nested := map[string]interface{}{"w": obj, "l": []interface{}{obj2, obj3}, "o": map[string]interface{}{"o": obj},
+		"t": []interface{}{[]interface{}{obj3, []interface{}{obj}}, 1.0, []interface{}{}}} // arrays directly inside arrays
 	// expected occurrences under '..' in pre-order, by an independent traversal
 	var occ []interface{}
 	var walk func(v interface{})
@@ -187,7 +188,7 @@ func checkC16(c *Case, st *Stats) string {
 		if err != nil {
 			return fmt.Sprintf("key %q, spelling %s: %q was rejected by Parse: %v", key, sp.name, path, err)
 		}
-		rec.PanicNext = true
+		rec.PanicNext = 1 + len(key)%3
 		func() {
 			defer func() {
 				if r := recover(); r != nil {
@@ -198,7 +199,7 @@ func checkC16(c *Case, st *Stats) string {
 			}()
 			_, _ = f(regions)
 		}()
-		rec.PanicNext = false
+		rec.PanicNext = 0
 		got, rerr := f(nested)
 		st.Eval(2)
 		var expect []interface{}
